@@ -19,8 +19,10 @@ timeout 600 go test -vet=off -count=1 -run 'Demo|C[0-9][0-9]' ./$DEMO_DIR 2>&1 |
 rm -f $R/$DEMO_DIR/zz_seed_demo_test.go
 echo "--- pinned suite with patch"
 VERIF_REPO=$R python3 /verif/scripts/baseline_check.py
+EVBAK=$(mktemp -d /tmp/evbak.XXXXXX); cp -a /verif/evidence/. $EVBAK/   # evidence of a seeded tree must not replace the real one
 for c in "$@"; do
   echo "--- check $c with patch"
   (cd /verif && VERIF_REPO=$R VERIF_DIR=${TRY_VERIF_DIR:-/verif} timeout 1500 bin/vcheck $c --tier quick > /tmp/seed_$c.log 2>&1; echo "exit=$?"; grep -E "VIOLATION|KNOWN|MISMATCH|INCONCL|NOTE" /tmp/seed_$c.log | cut -c1-260 | head -6; tail -1 /tmp/seed_$c.log | cut -c1-300)
 done
+cp -a $EVBAK/. /verif/evidence/; rm -rf $EVBAK
 cd $R && git checkout -- . && git status --porcelain --untracked-files=no
